@@ -732,6 +732,9 @@ theorem blockTail_A {cfg : Cfg} {startT : Option Tree} {tn : Option Name} {v : L
       · split at heq
         · split at heq <;> (inj2 heq; trivial)
         · inj2 heq; trivial
+      · split at heq
+        · split at heq <;> (inj2 heq; trivial)
+        · inj2 heq; trivial
 
 theorem blockFinish_A {cfg : Cfg} {startT : Option Tree} {tn : Option Name} {res : LoopRes}
     {s0 sL : St} {r : MRes} {s' : St} (hl : LoopSpec s0 res sL)
